@@ -492,6 +492,37 @@ Proof.
   destruct (0 <? v)%Z eqn:E; [|reflexivity]. apply Z.ltb_lt in E. rewrite (B E). apply Z.eqb_refl.
 Qed.
 
+(** the man page marks a setting (global) exactly when the code reads it with getsettingglobal()
+    (obligation of finding F-C12-2; KEY_TABLE is computed by the translator from qsmtpd/filters/*.c and filterconf.5) *)
+Lemma key_table_consistent :
+  forallb (fun x => Bool.eqb (snd (fst x)) (snd x)) KEY_TABLE = true.
+Proof. reflexivity. Qed.
+
+Lemma key_lookup_sound k : forall t cg dg,
+  forallb (fun x : bytes * bool * bool => Bool.eqb (snd (fst x)) (snd x)) t = true ->
+  key_lookup k t = Some (cg, dg) -> cg = dg.
+Proof.
+  induction t as [|[[k' c] d] t IH]; intros cg dg Hall H; simpl in *; [discriminate|].
+  apply andb_true_iff in Hall as [H1 H2].
+  destruct (bytes_eqb k k').
+  - inversion H; subst. apply Bool.eqb_prop. exact H1.
+  - apply IH; assumption.
+Qed.
+
+Lemma global_keys_match k cg dg : key_lookup k KEY_TABLE = Some (cg, dg) -> cg = dg.
+Proof. apply key_lookup_sound. exact key_table_consistent. Qed.
+
+Lemma filter_view_fits_of_model uc dc gc key :
+  filter_view_fits (level_says uc key) (level_says dc key) (level_says gc key) key
+    (setting_value (getsetting uc dc gc key)) (setting_type (getsetting uc dc gc key))
+    (setting_value (getsettingglobal uc dc gc key)) (setting_type (getsettingglobal uc dc gc key)) = true.
+Proof.
+  unfold filter_view_fits. destruct (key_lookup key KEY_TABLE) as [[cg dg]|] eqn:E; [|reflexivity].
+  apply global_keys_match in E. subst dg. destruct cg.
+  - apply probe_fits_of_model, getsettingglobal_doc.
+  - apply probe_fits_of_model, getsetting_doc.
+Qed.
+
 (** the reply templates of this source tree carry the documented codes *)
 Lemma templates_fit o :
   reply_fits o ((if is_byfilter o then [FILTER_MSG_HEAD] else []) ++
@@ -518,6 +549,7 @@ Proof.
   rewrite Hm. rewrite templates_fit. rewrite nat_list_eqb_refl.
   rewrite (probe_fits_of_model _ _ (getsetting_doc uc dc gc key)).
   rewrite (probe_fits_of_model _ _ (getsettingglobal_doc uc dc gc key)).
+  rewrite filter_view_fits_of_model.
   discriminate.
 Qed.
 
